@@ -17,7 +17,7 @@ MB == <<"b", "x">>
 ONames   == T({"n1", "n2"}, {"", "n1", "n2"})
 OModes   == {"rec", "dir"}
 OFactors == T({<<0, 0>>, <<0 - 1, 0 - 1>>, <<1, 2>>, <<2, 1>>},
-              {<<0, 0>>, <<0 - 1, 0 - 1>>, <<1, 2>>, <<2, 1>>, <<0, 2>>, <<0 - 1, 2>>, <<3, 3>>})
+              {<<0, 0>>, <<0 - 1, 0 - 1>>, <<1, 2>>, <<2, 1>>, <<0, 2>>, <<3, 3>>})
 OExps    == T({"none", "past", "f1"}, {"none", "past", "f1", "f2"})
 OMetas   == T({<<>>, <<MA>>, <<MA, MB>>}, {<<>>, <<MA>>, <<MAy>>, <<MA, MB>>})
 EMetas   == {<<>>, <<MA>>, <<MA, MB>>}
@@ -69,8 +69,9 @@ MsSet     == {MsGood, MsP2Bad, MsOnlyP1}
 Defaults  == {<<0 - 1, 0 - 1>>, <<1, 2>>, <<2, 3>>}
 EnvOf(fo, d, st, m, bk) == [follower |-> fo, dmin |-> d[1], dmax |-> d[2], strat |-> st, ms |-> m, paths |-> AllPaths, blocks |-> bk]
 MainEnvs == {EnvOf(FALSE, d, "asc", MsGood, AllBlocks) : d \in Defaults}
-            \cup T({}, {EnvOf(FALSE, <<1, 2>>, "asc", MsP2Bad, AllBlocks)})
+
 SideEnvs == {EnvOf(TRUE, <<1, 2>>, "asc", MsGood, AllBlocks), EnvOf(FALSE, <<1, 2>>, "desc", MsGood, <<>>),
+             EnvOf(FALSE, <<1, 2>>, "asc", MsP2Bad, AllBlocks),
              EnvOf(FALSE, <<2, 3>>, "asc", MsOnlyP1, AllBlocks)}
 Envs == MainEnvs \cup SideEnvs
 
